@@ -41,15 +41,30 @@ def rand_decl(rng):
     # value of such a variable is the same integer; only the bytes of its cell are ordered differently)
     d = mapdecl.rand_decl(rng, arrays=False, percpu=False,
                           hash_fmts=list("bBhHiIqQ") + (["x", "x"] if rng.random() < 0.4 else [])
-                          + (mapdecl.ORDERED_FMTS if rng.random() < 0.25 else []))
+                          + (mapdecl.ORDERED_FMTS if rng.random() < 0.25 else []),
+                          member_fmts=list(mapdecl.INT_FMTS) + (mapdecl.ORDERED_FMTS if rng.random() < 0.3 else []))
     if d["hash"]:
         for v in d["hash"]["vars"]:
             if v["fmt"] == "x":
                 v["default"] = rng.choice([0, 0, 0, 3, -2, 1.5])
+        if not any(v["fmt"][-1] in "qQ" for v in d["hash"]["vars"]):   # a cell that can take any 8-byte value
+            f = rng.choice("qQ")
+            d["hash"]["vars"].append(dict(name=f"h{len(d['hash']['vars'])}", fmt=f, default=mapdecl.rand_value(rng, f)))
     outs = [dict(name=f"o{i}", fmt="q") for i in range(NOUT)]
+    # the other memory a program copies hash variables and Dict members from and to: array-map variables and
+    # local (stack) variables of EVERY width and byte order - 8-byte ones with a byte order as often as the rest
+    wide = [v["fmt"][-1] for v in (d["hash"] or dict(vars=[]))["vars"] if v["fmt"][-1] in "qQ"] or ["q", "Q"]
+
+    def memfmt():
+        r = rng.random()
+        if r < 0.35:                              # as wide as a hash cell, same signedness as one of them
+            return rng.choice(mapdecl.ORDERS) + rng.choice(wide)
+        return rng.choice(list(mapdecl.INT_FMTS) + mapdecl.ORDERED_FMTS)
+    outs += [dict(name=f"e{i}", fmt=memfmt()) for i in range(rng.randint(1, 3))]
     if d["hash"] and any(v["fmt"] == "x" for v in d["hash"]["vars"]):
         outs.append(dict(name="ox", fmt="x"))
     d["arrays"] = [dict(name="om", percpu=False, vars=outs)]
+    d["locals"] = [dict(name=f"l{i}", fmt=memfmt()) for i in range(rng.randint(0, 2))]
     for dd in d["dicts"]:
         pool = []
         for _ in range(rng.randint(2, 4)):
@@ -63,8 +78,11 @@ class Names:
         self.outs = [(v["name"], v["fmt"]) for v in decl["arrays"][0]["vars"]]
         self.hvars = [(v["name"], v["fmt"], v["default"]) for v in (decl["hash"] or dict(vars=[]))["vars"]]
         self.dicts = decl["dicts"]
+        self.lvars = [(v["name"], v["fmt"]) for v in decl.get("locals", [])]
 
     def fmt(self, l):
+        if l["k"] == "l":
+            return self.lvars[l["id"] - 1][1]
         if l["k"] == "a":
             return self.outs[l["id"] - 1][1]
         if l["k"] == "h":
@@ -83,9 +101,10 @@ def strip(stmts):
 def tla_decl(decl, names, prog, ncpu):
     def default(fmt, v):
         return M.word(round(v * M.SCALE) if fmt == "x" else v)
-    return dict(avars=[dict(f=dict(n=1, c=f), percpu=False) for _, f in names.outs], ncpu=ncpu,
+    return dict(avars=[dict(f=dict(n=1, c=f[-1]), percpu=False) for _, f in names.outs], ncpu=ncpu,
                 hvars=[dict(c=f[-1], **{"def": default(f, dv)}) for _, f, dv in names.hvars],
-                dicts=[dict(key=[f for _, f in dd["key"]], val=[f for _, f in dd["value"]], cap=dd["size"],
+                lvars=[dict(c=f[-1]) for _, f in names.lvars],
+                dicts=[dict(key=[f[-1] for _, f in dd["key"]], val=[f[-1] for _, f in dd["value"]], cap=dd["size"],
                             lru=dd["lru"]) for dd in names.dicts],
                 prog=strip(prog))
 
@@ -94,6 +113,8 @@ def tla_decl(decl, names, prog, ncpu):
 def scalar_locs(names, fixed):
     out = [loc("a", i + 1, 1) for i, (_, f) in enumerate(names.outs) if (f == "x") == fixed]
     out += [loc("h", i + 1, 1) for i, (_, f, _) in enumerate(names.hvars) if (f == "x") == fixed]
+    if not fixed:
+        out += [loc("l", i + 1, 1) for i in range(len(names.lvars))]
     return out
 
 
@@ -104,7 +125,15 @@ def const_for(rng, fmt):
 
 
 def gen_program(rng, names):
-    stmts = []
+    # a local variable lives on the stack of one run: the program gives each one a value first
+    stmts = [stmt("const", dst=loc("l", i + 1, 1), v=mapdecl.rand_value(rng, f)) for i, (_, f) in enumerate(names.lvars)]
+    # every other memory variable is assigned directly to a hash variable holding the same values, if there is one
+    mem = [loc("a", i + 1, 1) for i, (n, f) in enumerate(names.outs) if n.startswith("e")]
+    mem += [loc("l", i + 1, 1) for i in range(len(names.lvars))]
+    for m in mem:
+        hs = [loc("h", i + 1, 1) for i, (_, f, _) in enumerate(names.hvars) if f[-1] == names.fmt(m)[-1]]
+        if hs and rng.random() < 0.7:
+            stmts.append(stmt("copy", dst=rng.choice(hs), src=m))
     for _ in range(rng.randint(2, 6)):
         r = rng.random()
         if names.dicts and r < 0.3:
@@ -124,7 +153,18 @@ def scalar_stmt(rng, names):
     if not locs:
         return None
     dst = rng.choice(locs)
-    kind = rng.choice(["const", "copy", "copy", "copy", "add"])
+    kind = rng.choice(["const", "copy", "copy", "copy", "add", "h<-m", "h<-m", "m<-h"])
+    if kind in ("h<-m", "m<-h"):
+        # a direct assignment between a hash variable and another memory variable (array map, stack): prefer a
+        # pair whose formats hold the same values, so that the value must arrive unchanged
+        hs = [l for l in locs if l["k"] == "h"]
+        ms = [l for l in locs if l["k"] in ("a", "l")]
+        if not hs or not ms:
+            return None
+        m = rng.choice(ms)
+        same = [h for h in hs if names.fmt(h)[-1] == names.fmt(m)[-1]]
+        h = rng.choice(same or hs)
+        return stmt("copy", dst=h, src=m) if kind == "h<-m" else stmt("copy", dst=m, src=h)
     if kind == "const":
         if dst["k"] == "h" and rng.random() < 0.85:          # constants go to result variables, mostly
             dst = rng.choice([l for l in locs if l["k"] == "a"] or [dst])
@@ -188,6 +228,8 @@ def emitter(names, stmts):
 
     def program(self):
         def target(l, value):
+            if l["k"] == "l":
+                return self, names.lvars[l["id"] - 1][0]
             if l["k"] == "a":
                 return self, names.outs[l["id"] - 1][0]
             if l["k"] == "h":
@@ -250,7 +292,7 @@ def struct_items(inst, built, names):
         m = [x for x in inst._c09_maps if x["type"] == "hash" and x["ks"] == K.stack and x["vs"] == V.stack]
         for which, S, members, obj, base, size in (("key", K, dd["key"], t.key, desc.key_offset, "ks"),
                                                     ("val", V, dd["value"], t.value, desc.value_offset, "vs")):
-            items.append(dict(d=dd["name"], which=which, letters=[f for _, f in members],
+            items.append(dict(d=dd["name"], which=which, letters=[f[-1] for _, f in members],
                               py=[S.__dict__[n].relative_addr for n, _ in members],
                               prog=[S.__dict__[n].fmt_addr(obj)[1] for n, _ in members],
                               base=base, total=S.stack, mapsize=m[0][size] if m else -1))
@@ -271,7 +313,9 @@ def history(rng, backend, decl, nops, meta):
     meta.update(decl=decl, stmts=stmts, trace=dict(decl=D, ev=ev), built=False, mode=backend.mode)
     sess = None
     try:
-        built = mapdecl.build(decl, base=XDP, program=emitter(names, stmts), name="Prog")
+        from ebpfcat.ebpf import LocalVar
+        built = mapdecl.build(decl, base=XDP, program=emitter(names, stmts), name="Prog",
+                              extra={n: LocalVar(f) for n, f in names.lvars})
         sess = backend.create(lambda: built.cls())
         inst = sess.inst
         inst._c09_maps = sess.b.maps
@@ -406,6 +450,9 @@ def history(rng, backend, decl, nops, meta):
         for i in range(len(names.hvars)):        # the declared defaults
             if rng.random() < 0.7:
                 read_scalar("h", i)
+        for i, (n, _) in enumerate(names.outs):  # the program's other memory starts with values of Python's choice
+            if n.startswith("e"):
+                write_scalar("a", i)
         for step in range(nops):
             r = rng.random()
             if r < 0.22 and (backend.mode == "kernel" or nruns < 2):
@@ -657,8 +704,7 @@ def classify(ctx):
                ("constant assigned to a hash variable in a program (AttributeError)", pred_const_to_hash),
                ("hash variable read while r0 is in use (after a Dict operation): program refused", pred_hash_read_r0_refused),
                ("F3 fixed-point truncation", pred_f3),
-               ("F10 x-format hash variable", pred_x_hash),
-               ("hash variable with an explicit byte order: Python getter vs setter / program", pred_ordered_hash)]
+               ("F10 x-format hash variable", pred_x_hash)]
     tally = {name: 0 for name, _ in classes}
     tally["not explained"] = 0
     shown = {}
